@@ -296,10 +296,14 @@ Ltac nice_case isinff panicv powf fuel o base eb Hp He Hmn Hml Hf Hinf Hmax :=
     pose proof (tie_Linear_spacingAtLevel isinff panicv powf r l0 true eb Hinf Hp He) as H;
     destruct (gen_Linear_spacingAtLevel isinff panicv powf r l0 true) as [[?fN ?lN] ?sp];
     lproj; cbv zeta in H;
-    match type of H with context [lin_first_last ?a ?b ?c true] => destruct (lin_first_last a b c true) as [?f ?la] end;
+    match goal with Hov : forall l1, FL_ok ?l2 = FL_ok l1 -> _ |- _ => specialize (Hov l2 eq_refl) end;
+    match type of H with context [lin_first_last ?a ?b ?c true] =>
+      destruct (lin_first_last a b c true) as [?f ?la] end;
     let Hsp := fresh "Hsp" in
     destruct H as (Hsp & -> & ->); rewrite !Hinf; cbn [negb]; rewrite !Bool.andb_true_r;
-    match goal with Hov : forall l1, FL_ok ?l2 = FL_ok l1 -> _ |- _ => specialize (Hov l2 eq_refl) end;
+    match goal with Hov : _ /\ _ /\ _ |- _ =>
+      let Hf1 := fresh "Hf1" in let Hf2 := fresh "Hf2" in destruct Hov as (Hov & Hf1 & Hf2); rewrite ?Hf1, ?Hf2 end;
+    cbn [andb];
     repeat match goal with |- context [Qleb ?m ?sp0] =>
       match m with context [Qmake] => idtac end;
       replace (Qleb m sp0) with false
@@ -326,7 +330,12 @@ Theorem tie_Linear_Nice : forall (isinff : Q -> Z -> bool) (logf : Q -> Q) (pani
   (* the spacing of the level found is below the largest float64 (above it the code substitutes
      math.MaxFloat64: an overflow regime outside the exact reading of float64) *)
   (forall l, find_level (to_opts o) (lin_count (Linear_Base s) eb mn mx true) guess = FL_ok l ->
-             lin_spacing (Linear_Base s) eb l < maxfloat64) ->
+             lin_spacing (Linear_Base s) eb l < maxfloat64 /\
+             (* ... and the two nice ends are finite float64 values (the model moves an end only to a
+                representable value, Model/Ticks.v f64_fin; the exact reading has no infinity) *)
+             let '(f, la) := lin_first_last mn mx (lin_spacing (Linear_Base s) eb l) true in
+             f64_fin (inject_Z f * lin_spacing (Linear_Base s) eb l) = true /\
+             f64_fin (inject_Z la * lin_spacing (Linear_Base s) eb l) = true) ->
   exists s', gen_Linear_Nice isinff logf panicv powf fuel s o = Some s' /\
              nice_rel (Linear_Base s) (Linear_Clamp s) s'
                (lin_nice (Linear_Base s) (Linear_Min s) (Linear_Max s) (to_opts o) guess).
